@@ -221,6 +221,8 @@ func c09Run(raw json.RawMessage) harn.Result {
 			ok := true
 			for _, s := range c.Stmts[:split] {
 				_ = a.Run(s) // a failing statement is part of the history
+				// the host snapshots after every command: an earlier snapshot of the same VM must not show through a later one
+				_, _ = harn.Guard(func() { _, _ = a.Attrs.ToJSON() })
 			}
 			var f c09Features
 			seen := map[any]int{}
